@@ -96,6 +96,19 @@ template <int b> static std::string mxrun(const std::string &op, Tok &t) {
         be::residual(F, *S, X, R);
         return show(flat(R));
     }
+    if (op == "sspmv") {
+        // plain SCALAR float matrix, plain DOUBLE vectors: the same-shape overload of spmv_impl / residual_impl, the one a
+        // double Krylov solver uses on the float system matrix of a single-precision preconditioner
+        // (make_solver::operator()(rhs, x)); the row sums must be accumulated in the precision of the VECTORS
+        std::vector<double> x = t.vecT<double>(); double alpha = t.d(), beta = t.d(); std::vector<double> y = t.vecT<double>();
+        be::spmv(alpha, *S, x, beta, y);
+        return show(y);
+    }
+    if (op == "sresid") {
+        std::vector<double> f = t.vecT<double>(), x = t.vecT<double>(), r = t.vecT<double>();
+        be::residual(f, *S, x, r);
+        return show(r);
+    }
     if (op == "bspmv" || op == "hspmv") {
         std::vector<double> x = t.vecT<double>(); double alpha = t.d(), beta = t.d(); std::vector<double> y = t.vecT<double>();
         if (op == "bspmv") {
@@ -131,7 +144,7 @@ static std::string mxdispatch(const std::string &op, Tok &t) {
     throw std::invalid_argument("block size");
 }
 #define MX_OP(name) VQ_OP(name) { try { return mxdispatch(#name, t); } catch (const std::exception &e) { return "EXC " + vq::exc_kind(e); } }
-MX_OP(bspmv) MX_OP(hspmv) MX_OP(bresid) MX_OP(hresid) MX_OP(bvmul) MX_OP(sbspmv) MX_OP(sbresid)
+MX_OP(bspmv) MX_OP(hspmv) MX_OP(bresid) MX_OP(hresid) MX_OP(bvmul) MX_OP(sbspmv) MX_OP(sbresid) MX_OP(sspmv) MX_OP(sresid)
 
 // complex vector viewed through complex b x b blocks: n complex numbers must give n/b elements of b complex numbers
 template <int b> static std::string cview(long n) {
